@@ -2,8 +2,26 @@
    Only statements, [exact] and [Print Assumptions] live here. *)
 From Coq Require Import List Arith Bool NArith.
 From GV Require Import Base.Result Gen.TokenTypes Gen.Defs Model.Parser Model.BuilderWL Spec.TreeShape
-  Proofs.C03.Bounded Proofs.C03.Bounded4 Proofs.C04.Bounded Proofs.C04.Shape.
+  Proofs.C03.Bounded Proofs.C03.Bounded4 Proofs.C04.Bounded Proofs.C04.Shape Proofs.C04.Validated.
 Import ListNotations.
+
+(* UNBOUNDED, for every token list: whenever parse accepts, the node links it returns
+   form a tree.  [well_linked ns root]: there is a set of marked nodes containing the root
+   such that every child index of a marked node exists, names that node as its parent and
+   is itself marked, and every unmarked node is a dropped separator.  (parse validates its
+   result with validate_tree, mirrored from parser.rs; the proof is the depth-first-search
+   invariant of that validation.) *)
+Theorem C04_accepted_parse_is_tree : forall (toks : list token_type) root ns,
+  parse toks = Ok (root, ns) -> ns <> [] -> well_linked ns root.
+Proof. exact parse_accepts_only_trees. Qed.
+Print Assumptions C04_accepted_parse_is_tree.
+
+(* ... and no node is shared: two marked nodes never have the same child *)
+Theorem C04_no_shared_child : forall ns root, well_linked ns root ->
+  forall v, (forall i, marked v i -> children_ok ns v i) ->
+  forall i j c, marked v i -> marked v j -> child ns i c -> child ns j c -> i = j.
+Proof. exact no_shared_child. Qed.
+Print Assumptions C04_no_shared_child.
 
 (* what the boolean checker establishes, as Props: the root has no parent, the
    in-order walk from the root visits no node twice, child and parent links agree at
